@@ -93,7 +93,8 @@ class UsedQubitIndicesVisitor(Visitor):
     def visit_Register(self, obj, context=None):
         """Called when a register (or register alias) is an argument to a gate. Jaqal
         does not currently allow this."""
-        size = obj.resolve_size()
+        # The size of a register may be given by a let constant.
+        size = int(obj.resolve_size())
         indices = defaultdict(set)
         for reg, idx in (obj[i].resolve_qubit(context) for i in range(size)):
             indices[reg.name].add(idx)
